@@ -27,6 +27,7 @@ type C16Case struct {
 	Split  int             `json:"split"`            // Opts[:Split] are NewFunc defaults, the rest Call options
 	NilOpt int             `json:"nilOpt"`           // -1, or position in the call options of a nil Arg
 	Perm   []int           `json:"perm,omitempty"`   // permutation applied to the de-duplicated list for the metamorphic check
+	ViaList bool           `json:"viaList,omitempty"` // construct the target with NewFuncList instead of NewFunc
 }
 
 func optKey(l engine.Label) string {
@@ -112,7 +113,13 @@ func runOptsSeq(x *C16Case, defaults, callOpts []OptEntry, nilAt int, followUp b
 	w := engine.NewWorld()
 	dargs := entryArgs(defaults, -1)
 	tgt := x.Target
-	f, err := w.Realize(&tgt, dargs...)
+	var f *argmapper.Func
+	var err error
+	if x.ViaList {
+		f, err = w.RealizeViaList(&tgt, dargs...)
+	} else {
+		f, err = w.Realize(&tgt, dargs...)
+	}
 	if err != nil {
 		return engine.Outcome{}, nil, "", err
 	}
@@ -248,6 +255,9 @@ func evalC16(c *engine.Case) engine.Verdict {
 	}
 	if x.Split > 0 {
 		v.Class("has-defaults")
+	}
+	if x.ViaList {
+		v.Class("constructed-via-NewFuncList")
 	}
 	if x.NilOpt >= 0 {
 		v.Class("nil-option")
@@ -433,6 +443,7 @@ func genC16(g engine.G) *engine.Case {
 	if g.Pct(12) {
 		x.NilOpt = g.Int(0, len(x.Opts)-x.Split)
 	}
+	x.ViaList = g.Pct(25)
 	// permutation of the de-duplicated list
 	nkeys := map[string]bool{}
 	for _, e := range x.Opts {
